@@ -479,7 +479,7 @@ def _eq_lengths(cond, truth):
 
 # ---- B6: numeric accumulation ------------------------------------------------------------------
 
-def check_accumulation(ctx, rule, fns, label=None):
+def check_accumulation(ctx, rule, fns, label=None, strict_unsigned=False):
     """Loops that accumulate a number from input digits: the accumulator is unsigned, or every
     arithmetic step on it is overflow-checked (builtin *_overflow) or bounded by a dominating test."""
     for f in fns:
@@ -536,6 +536,8 @@ def check_accumulation(ctx, rule, fns, label=None):
                             bound = k - 1 if bound is None else min(bound, k - 1)
             bits = tgt.strip().get("bits") or 32
             tmax = (1 << (bits - 1)) - 1
+            if not signed and strict_unsigned:
+                tmax = (1 << bits) - 1
             mul = any(x.op in ("*", "*=") for x in arith) or (n.kind == "CompoundAssignOperator" and n.op == "*=")
             if bound is not None:
                 # the digit step is acc*10 + d with d <= 9: it must fit for every accumulator value the guard admits
@@ -543,11 +545,12 @@ def check_accumulation(ctx, rule, fns, label=None):
                 if mul is False and _has_mul_sibling(f, tp, cyc):
                     guarded = True if bound * 10 + 9 <= tmax else False
             ctx.inst(rule, "%s: accumulation #%d into %s" % (label(f) if label else f.sig, k, _clean(tp)),
-                     (not signed) or guarded, n.loc,
+                     ((not signed) and not strict_unsigned) or guarded, n.loc,
                      "accumulator type is %s; %s" % ("signed" if signed else "unsigned",
                                                      ("bounded by a dominating comparison that keeps acc*10+9 within the type (acc <= %s)" % bound) if guarded else
                                                      ("guard admits acc <= %s, for which acc*10+9 overflows" % bound) if (signed and bound is not None) else
-                                                     ("signed overflow on long digit strings is undefined behaviour" if signed else "wraps, defined")), f)
+                                                     ("signed overflow on long digit strings is undefined behaviour" if signed else
+                                                      ("wraps silently: an out-of-range number is taken for a small one" if strict_unsigned else "wraps, defined"))), f)
 
 
 def _has_mul_sibling(f, tp, cyc):
